@@ -742,8 +742,40 @@ fn arc_ops(em: &mut Emit, rng: &mut Rng, n: u64) {
     }
 }
 
+/// Two or three programs of one shape whose long constants have the same length and different
+/// contents, executed alternately on one thread against one context, many times: the buffer of one
+/// execution is freed before the next allocates its own, typically at the same address, so
+/// anything remembered by address and length shows up as the previous program's constant.
+fn alternation(em: &mut Emit) {
+    let spec = CtxSpec { vars: vec![("n".into(), Value::Int(7)), ("w".into(), Value::String(Arc::new("s7".into())))], funs: vec![] };
+    let ctxw = spec.wire();
+    let ctx: Context<'static> = spec.build();
+    let ints = |base: i64, len: i64| (0..len).map(|i| format!("{}", base + i)).collect::<Vec<_>>().join(", ");
+    let strs = |tag: &str, len: usize| (0..len).map(|i| format!("'{}{}'", tag, i)).collect::<Vec<_>>().join(", ");
+    let groups: Vec<Vec<String>> = vec![
+        vec![format!("7 in [{}]", ints(0, 40)), format!("7 in [{}]", ints(100, 40)), format!("107 in [{}]", ints(100, 40))],
+        vec![format!("n in [{}]", ints(0, 64)), format!("n in [{}]", ints(1000, 64))],
+        vec![format!("[{}].contains(n)", ints(0, 33)), format!("[{}].contains(n)", ints(50, 33))],
+        vec![format!("'s7' in [{}]", strs("s", 40)), format!("'s7' in [{}]", strs("t", 40)), format!("w in [{}]", strs("s", 40))],
+        vec![format!("[{}].contains(w)", strs("t", 48)), format!("[{}].contains(w)", strs("s", 48))],
+        vec![format!("7u in [{}]", ints(0, 40)), format!("7u in [{}]", ints(100, 40))],
+        vec![format!("[{}].map(e, e + n)[7]", ints(0, 40)), format!("[{}].map(e, e + n)[7]", ints(100, 40))],
+        vec![format!("size([{}] + [n]) + [{}][7]", ints(0, 40), ints(0, 40)), format!("size([{}] + [n]) + [{}][7]", ints(100, 40), ints(100, 40))],
+    ];
+    for (g, group) in groups.iter().enumerate() {
+        let progs: Vec<Program> = group.iter().map(|s| Program::compile(s).expect("alternation program compiles")).collect();
+        for round in 0..12 {
+            for (k, p) in progs.iter().enumerate() {
+                let w = guarded(std::panic::AssertUnwindSafe(|| exec_wire(p, &ctx)));
+                em.case(&format!("(evalsrc {} {})", ctxw, sx_str(&group[k])), &w, "nt=1;kind=alternation", &format!("alternation group {} round {}: {}", g, round, group[k]));
+            }
+        }
+    }
+}
+
 pub fn run(em: &mut Emit, thorough: bool, seed: u64) {
     let mut rng = Rng::new(seed ^ 0xC05);
+    alternation(em);
     arc_ops(em, &mut rng, if thorough { 40_000 } else { 3_000 });
     heap_cases(em, &mut rng, if thorough { 60_000 } else { 4_000 });
     let nh = if thorough { 3000 } else { 120 };
